@@ -392,6 +392,10 @@ Definition record11_code : list dstmt :=
   [DAssign "err" "r.record1dot1Chunks()"; DIf (DNot (DEq "err" "nil")) [DAssign "r.Failed" "&OperationError{ Input: string(r.Input), Output: r.Result, ErrorString: err.Error(), }"] []].
 Definition nc_record_code : list dstmt :=
   [DAssign "r.EndTime" "time.Now()"; DAssign "r.ElapsedTime" "r.EndTime.Sub(r.StartTime).Seconds()"; DAssign "r.RawResult" "b"; DCall "r.recordRPCErrors(r.RawResult)"; DSwitch "r.NetconfVersion" [(["v1Dot0"], [DCall "r.record1dot0()"]); (["v1Dot1"], [DCall "r.record1dot1()"; DIf (DEq "r.Failed" "nil") [DCall "r.recordRPCErrors([]byte(r.Result))"] []])]].
+Definition record10_code : list dstmt :=
+  [DAssign "b" "r.RawResult"; DAssign "b" "bytes.TrimPrefix(b, []byte(xmlHeader))"; DAssign "b" "bytes.TrimSuffix(bytes.TrimSpace(b), []byte(v1Dot0Delim))"; DAssign "r.Result" "string(bytes.TrimSpace(b))"].
+Definition record_rpc_errors_code : list dstmt :=
+  [DIf (DNot (DAtom "util.ByteContainsAny(b, r.FailedWhenContains)")) [DReturn ""] []; DAssign "r.Failed" "&OperationError{ Input: string(r.Input), Output: r.Result, ErrorString: string(patterns.rpcErrors.Find(b)), }"; DRange "rpcerr" "patterns.rpcSingleErrors.FindAll(b, -1)" [DAssign "errStr" "string(rpcerr)"; DIf (DAtom "strings.Contains(errStr, ""<error-severity>error</error-severity>"")") [DAssign "r.ErrorMessages" "append(r.ErrorMessages, errStr)"] [DIf (DAtom "strings.Contains(errStr, ""<error-severity>warning</error-severity>"")") [DAssign "r.WarningErrorMessages" "append(r.WarningErrorMessages, errStr)"] []]]].
 (* channel/read.go: the read-until functions *)
 Definition read_until_code : list (string * list dstmt) := [
   ("Channel.ReadUntilFuzzy",
